@@ -4,8 +4,8 @@ import (
 	"bytes"
 	"context"
 	"errors"
-	"io"
 	"fmt"
+	"io"
 	"net"
 	"strings"
 	"testing"
@@ -27,7 +27,7 @@ type c06Case struct {
 	ReasonLen int    `json:"reason_len"` //
 	Timing    string `json:"timing"`     // idle | after-msg | read-pending | read-after | partial-fin | partial-frag1 | partial-frag2 | unread-queued
 	Calls     string `json:"calls,omitempty"`
-	Part      int    `json:"part,omitempty"` // partial-*: how many bytes of the 200-byte message the application reads before Close
+	Part      int    `json:"part,omitempty"`      // partial-*: how many bytes of the 200-byte message the application reads before Close
 	MB        bool   `json:"multibyte,omitempty"` // the reason consists of two-byte characters (ReasonLen counts bytes)
 }
 
